@@ -105,5 +105,22 @@ def fill(chk, not_yet):
         "relative; proposal objects compared by support / log-probabilities / sampling vector.",
         "runtime monitoring: shadow execution of memoised functions against their unmemoised originals",
         "DESIGN.md 4/C14")
+    chk("C05", "exploration",
+        "Every cell of the likelihood grids loaded from generated input files (depth 0..1e6, alt in {0,d}, major 1-8, "
+        "minor 0..major, normal 1-3, tumour content incl. 1.0/1e-3, error rate 1e-6..0.49, both densities, precision "
+        "0.1..1e5, grids 2..201, clustered or not) against an independent genotype-mixture reference built on "
+        "scipy.stats pmfs; density sums to one over all alternate counts (depth<=300); cluster = sum of members; "
+        "outlier terms = size*log p, size*log(1-p), (0,0) for p=0.",
+        "reference genotype enumeration written from the property statement; tolerance 1e-6+1e-10*depth in log space.",
+        "runtime monitoring: reference-model oracle on generated input files and direct density calls",
+        "DESIGN.md 4/C05")
+    chk("C17", "exploration",
+        "load_data on generated tables containing every documented filter class (missing in a sample, zero major CN in "
+        "a sample, duplicated, zero everywhere), numeric/string ids, tab/comma, optional columns present/absent, "
+        "cluster files: kept set, sorted order, idx 0..n-1, per-sample rows against the emission reference (defaults "
+        "1.0 / 0.001), MajorCopyNumberError for major<minor; 5 row permutations of each table give bit-identical data.",
+        "the two table classes the property excludes are never generated.",
+        "runtime monitoring: reference filter + metamorphic (row permutation) oracle over generated tables",
+        "DESIGN.md 4/C17")
     for pid in ["C02","C03","C05","C06","C07","C08","C09","C10","C11","C12","C13","C14","C15","C16","C17","C18","C19","C20"]:
         not_yet[pid] = "check under construction in this session (runtime monitor designed in DESIGN.md section 4); not claimed until it runs clean"
